@@ -129,7 +129,7 @@ def force(binary, steps, form):
 
 
 def overlaps(steps):
-    i, j = steps.index("q.snapU"), steps.index("q.search")
+    i, j = steps.index("q.snapU"), steps.index("q.search")   # q.search = the last query step
     return any(s.startswith(("rot.", "flush.")) for s in steps[i:j])
 
 
@@ -144,17 +144,41 @@ def run(chk):
     r3 = vlib.run_tlc("Visibility", "MC_Visibility_norecheck.cfg", timeout=600)
     if "NoLoss" not in r3.violated:
         raise vlib.Infra("model sensitivity lost: Visibility without the re-check no longer violates NoLoss")
-    chk.cov["model_sensitivity"] = ("Dedup=FALSE violates NoDup and Recheck=FALSE violates NoLoss in the model; both were "
-                                    "reproduced on the pinned commit by forced interleavings before the fix: commits")
+    r4 = vlib.run_tlc("Visibility", "MC_Visibility_noreaderfallback.cfg", timeout=600)
+    r5 = vlib.run_tlc("Visibility", "MC_Visibility_noreaderfallback_damage.cfg", timeout=600)
+    if "NoLoss" not in r4.violated or "NoDamage" not in r5.violated:
+        raise vlib.Infra("model sensitivity lost: Visibility without the readers' fallback no longer violates NoLoss / NoDamage")
+    chk.cov["model_sensitivity"] = ("Dedup=FALSE violates NoDup, Recheck=FALSE violates NoLoss, ReaderFallback=FALSE violates NoLoss "
+                                    "and NoDamage in the model; each was reproduced on the code before its fix: commit by forced "
+                                    "interleavings")
     beh, rg = vlib.tlc_generate("Gen_Visibility", "Gen_Visibility.cfg" if quick else "Gen_Visibility_deep.cfg", timeout=1200)
     chk.add_tlc("Gen_Visibility", rg, "interleaving generation")
     scheds = sorted(set(tuple(b["steps"]) for b in beh))
     inter = [s for s in scheds if overlaps(s)]
     rest = [s for s in scheds if not overlaps(s)]
+    # stratify: the class of an interleaving is the set of (query step after which it happens, writer step) pairs, so that
+    # every window between two query steps is forced with every writer step, not only the frequent ones
+    def klass(st):
+        last, out = "", set()
+        for x in st:
+            if x.startswith("q."):
+                last = x
+            elif last and last != "q.search" and x in ("flush.vis", "rot.meta", "rot.remove"):
+                out.add((last, x))
+        return tuple(sorted(out))
+    by_class = {}
+    for st in inter:
+        by_class.setdefault(klass(st), []).append(st)
+    per = 2 if quick else 12
+    strat = []
+    for k in sorted(by_class):
+        strat += vlib.sample(by_class[k], per, chk.seed)
+    chk.cov["interleaving_classes"] = len(by_class)
     if quick:
-        todo = vlib.sample(inter, 110, chk.seed) + vlib.sample(rest, 10, chk.seed)
+        strat = vlib.sample(strat, 150, chk.seed)
+        todo = strat + vlib.sample(inter, 40, chk.seed) + vlib.sample(rest, 10, chk.seed)
     else:
-        todo = vlib.sample(inter, 2400, chk.seed) + vlib.sample(rest, 100, chk.seed)
+        todo = strat + vlib.sample(inter, 1500, chk.seed) + vlib.sample(rest, 100, chk.seed)
     rnd = random.Random(chk.seed)
     jobs = [(s, FORMS[(i + chk.seed) % len(FORMS)]) for i, s in enumerate(todo)]
     if not quick:
@@ -209,7 +233,7 @@ def run(chk):
         "data races (Go memory model) are not decided by this check",
     ]
     chk.describe(rule="TLC enumerates every interleaving of writer steps (ingest 1-2, flush visible/end, rotation meta/remove/end) "
-                      "with the query's four steps (two listings, unrotated check, search); a seeded sample (quick) or all (thorough) of those where the query overlaps a "
+                      "with the query's eight steps (two listings, unrotated check, planning, reader open check/lookup, record-fetch check/lookup); a seeded sample (quick) or all (thorough) of those where the query overlaps a "
                       "flush or rotation is forced on the real goroutines, rotating over 6 query forms; non-trivial = fully forced "
                       "and overlapping", exhaustive=False)
 
